@@ -251,6 +251,12 @@ def run(F, R):
             pos = arms.get("true")
             neg = arms.get("false")
             ok = si.kind == "bool" and st[0] == "binop" and st[1] in ("Gt", "Ge") and strip(st[2]) == ("param", 1) and lib.term_const(c, st[3]) == 0
+            if si.kind == "bool" and st[0] == "binop" and st[1] in ("Le", "Lt") and strip(st[2]) == ("param", 1) and lib.term_const(c, st[3]) == 0:
+                # the same split with the condition negated and the arms swapped (m <= 0 / m < 0: zero may go either way, +0 == -0)
+                pos, neg = neg, pos
+                ok = True
+            elif si.kind == "bool" and st[0] == "binop" and st[1] in ("Lt", "Le") and strip(st[3]) == ("param", 1) and lib.term_const(c, st[2]) == 0:
+                ok = True   # 0 < m
             if ok and pos is not None and neg is not None:
                 ps = nrm(pos, {1: "micros"})
                 ns = nrm(neg, {1: "micros"})
@@ -284,7 +290,9 @@ def run(F, R):
                         continue
                     op = wall[1].split("::")[-1]
                     base = nrm(wall[2][0], {1: "self"})
-                    adj = wall[2][1]
+                    from .. import optnorm, flow as _flow
+                    # a private helper computing the adjustment is the expression it wraps
+                    adj = optnorm.inline_all(_flow.World([c]), tr, wall[2][1])
                     iv = intervals.ival(c, adj)
                     side = "before-epoch" if vn == "Err" else "after-epoch"
                     R.check("C19-R4", "zero-adjustment:" + side, iv is not None and iv[0] <= 0 <= iv[1] and base == "self.wall",
@@ -323,6 +331,8 @@ def run(F, R):
                 R.check("C19-R6", "set_time-encoding", ok, "set_option_int(key, checked_system_time_to_micros_from_epoch(t))", "set_time does not use the checked conversion: %s" % names)
             else:
                 cl = lib.closures_of(c, b["id"])
-                inner = [x[1]["s"] for cb in cl for x in walk(BV.of(cb).trace_local(0)) if x[0] == "const"]
+                # the decoding function is named in the mapping closure, or in a local fn item nested in get_time
+                nested = [b2 for b2 in c.bodies if b2["id"].startswith(b["id"] + "::") and b2.get("kind") == "fn"]
+                inner = [x[1]["s"] for cb in list(cl) + nested for x in walk(BV.of(cb).trace_local(0)) if x[0] == "const"]
                 ok = any(n.endswith("Storage::get_int") for n in names) and any("micros_from_epoch_to_system_time" in s for s in inner)
                 R.check("C19-R6", "get_time-decoding", ok, "get_int(key).map(micros_from_epoch_to_system_time)", "get_time does not decode with micros_from_epoch_to_system_time: %s %s" % (names, inner))
